@@ -45,6 +45,13 @@ func atomsRec(v ssa.Value, out map[string]bool, seen map[ssa.Value]bool, depth i
 		}
 	case *ssa.Parameter:
 		out["param:"+x.Name()] = true
+		if f := x.Parent(); f != nil {
+			for i, q := range f.Params {
+				if q == x {
+					out[fmt.Sprintf("param#%d", i)] = true // positional (receiver = 0): independent of the source name
+				}
+			}
+		}
 	case *ssa.FreeVar:
 		out["fv:"+x.Name()] = true
 	case *ssa.Global:
